@@ -157,6 +157,30 @@ func metaCheck(env *core.Env, cc core.Case) core.Verdict {
 				v.Counts["one_line_spellings_compared"]++
 			}
 		}
+		// the log level is not an input: with files of more than a log excerpt's length the same program is run again
+		// at trace level
+		big := 0
+		for _, t := range p.Files.Include {
+			big += len(t)
+		}
+		for _, t := range p.Files.Exclude {
+			big += len(t)
+		}
+		if big > 300 && (len(p.Main)+big)%3 == 0 {
+			plain := sut.Run(sut.Cmd{Bin: env.Bin, Args: []string{"-d", root, "regex", "generate", "-"}, Stdin: []byte(p.Main), Dir: root})
+			for _, lvl := range []string{"trace", "debug"} {
+				tr := sut.Run(sut.Cmd{Bin: env.Bin, Args: []string{"--log-level", lvl, "-d", root, "regex", "generate", "-"}, Stdin: []byte(p.Main), Dir: root})
+				if tr.Class() == sut.ClassTimeout || plain.Class() == sut.ClassTimeout {
+					break
+				}
+				if tr.Exit != plain.Exit || string(tr.Stdout) != string(plain.Stdout) {
+					x := core.Viol(c.Kind+":log-level-changes-output", "the same program gives another result with --log-level %s\nprogram=%s\ndefault: %s\n%s: %s", lvl, core.Q(p.Main), describe(plain), lvl, describe(tr))
+					x.Features = v.Features
+					return x
+				}
+				v.Counts["log_level_reruns"]++
+			}
+		}
 		if c.Kind == "except" && !c.Strict {
 			// duplicates in F: the statement fixes the relative order of the survivors, so the text must at least be stable
 			first := raGenerate(env, root, p.Main, false)
